@@ -302,6 +302,62 @@ def timeouts(cx, quick):
     return total
 
 
+def iterator_stack(cx, quick):
+    """every kind of loop iterator (they push 2 or 3 values per step), alone and nested, at EVERY evaluation stack size 1..N, under ASan: outcome is the
+    stack-overflow error or the verdict obtained with the default stack; ok/overflow boundary sharp in S; a guard that is one slot short is a heap overflow"""
+    kinds = {"range": "for any i in (1..3) : (i == 3)", "enum": "for any i in (1, 2, 3) : (i == 3)", "text-enum": 'for any s in ("a", "b") : (s == "b")',
+             "int-array": "for any x in tests.integer_array : (x == 1)", "string-array": 'for any s in tests.string_array : (s == "foo")',
+             "struct-array": "for any e in tests.struct_array : (e.i == 1)", "int-dict": "for any k, v in tests.integer_dict : (v == 1)",
+             "string-dict": 'for any k, v in tests.string_dict : (v == "foo")', "struct-dict": "for any k, v in tests.struct_dict : (v.i == 1)",
+             "empty-dict": "for any k, v in tests.empty_struct_dict : (v.unused == 1)", "empty-dict-all": "for all k, v in tests.empty_struct_dict : (v.unused == 1)",
+             "string-set": "for any of them : ($)", "of": "any of them"}
+    outers = {"range": "for any o in (1..2) : (%s)", "int-array": "for any o in tests.integer_array : (%s)", "int-dict": "for any ok, ov in tests.integer_dict : (%s)",
+              "string-set": "for any of them : (%s)"}
+    shapes = dict(kinds)
+    for on, ot in outers.items():
+        for kn, kt in kinds.items():
+            if kn in ("string-set",) and on == "string-set": continue
+            shapes["%s>%s" % (on, kn)] = ot % kt.replace("($)", "($ at 0)")
+    N = 28 if quick else 72
+    for name, cond in shapes.items():
+        text = 'import "tests" rule r { strings: $_s = "zz" condition: %s }' % cond
+        pre = ["reset", "compiler 0", "add 0 - " + yv.hx(text), "getrules 0 0", "cdestroy 0"]
+        ref = cx.batch(["cfg stack 16384"] + pre + ["scan target=r0 via=mem ml=0 data=" + yv.hx(b"zz"), "reset"])
+        if isinstance(ref, Exception) or ref[3]["errors"] or ref[-2]["rc"] != 0:
+            cx.ck.violation("C15:iterator-stack:harness:reference-run-failed", dict(shape=name, condition=cond, reply=str(ref)[:500])); continue
+        want = [m[0] for m in ref[-2]["t"] if m[0] in ("m", "n")]
+        outcome = {}
+        for S in range(1, N + 1):
+            rep = cx.batch(["cfg stack %d" % S] + pre + ["scanner 0 0", "scan target=s0 via=mem ml=0 data=" + yv.hx(b"zz"), "scan target=s0 via=mem ml=0 data=" + yv.hx(b"zz"), "reset", "cfg stack 16384"] + CANARY)
+            cx.n += 1
+            if isinstance(rep, Exception):
+                err = getattr(rep, "err", "")
+                kind = ("asan:" + err.split("AddressSanitizer: ")[1].split()[0]) if "AddressSanitizer: " in err else "died"
+                cx.ck.violation("C15:iterator-stack:%s:crash:%s" % (name.split(">")[-1], kind), dict(shape=name, stack=S, condition=cond, stderr=err[-2500:])); outcome[S] = "crash"
+                cx.batch(["cfg stack 16384"]); continue
+            r, r2 = rep[-len(CANARY) - 4], rep[-len(CANARY) - 3]
+            if r["rc"] == E["STACK"]:
+                outcome[S] = "overflow"
+            elif r["rc"] == 0:
+                got = [m[0] for m in r["t"] if m[0] in ("m", "n")]
+                outcome[S] = "ok"
+                if got != want:
+                    cx.ck.violation("C15:iterator-stack:%s:verdict-differs-from-default-stack" % name.split(">")[-1], dict(shape=name, stack=S, condition=cond, got=got, want=want))
+            else:
+                outcome[S] = "rc=%d" % r["rc"]
+                cx.ck.violation("C15:iterator-stack:%s:unexpected-rc" % name.split(">")[-1], dict(shape=name, stack=S, rc=r["rc"]))
+            if (r2["rc"], [m[0] for m in r2["t"]]) != (r["rc"], [m[0] for m in r["t"]]):
+                cx.ck.violation("C15:iterator-stack:%s:second-scan-differs" % name.split(">")[-1], dict(shape=name, stack=S, first=r, second=r2))
+            if not canary_ok(rep[-len(CANARY):]):
+                cx.ck.violation("C15:iterator-stack:%s:library-unusable-afterwards" % name.split(">")[-1], dict(shape=name, stack=S))
+        oks = [S for S, o in outcome.items() if o == "ok"]; ovs = [S for S, o in outcome.items() if o == "overflow"]
+        if oks and ovs and min(oks) < max(ovs):
+            cx.ck.violation("C15:iterator-stack:%s:boundary-not-monotonic" % name.split(">")[-1], dict(shape=name, ok=oks[:5], overflow=ovs[-5:]))
+        if not oks:
+            cx.ck.violation("C15:iterator-stack:harness:never-fits", dict(shape=name, outcomes=sorted(outcome.items())[-4:]))
+        cx.ck.sub("iterator-stack", **{name: "overflow<=%s ok>=%s" % (max(ovs) if ovs else None, min(oks) if oks else None)})
+
+
 def main():
     ck = yv.Check("C15", "exploration")
     quick = ck.tier == "quick"
@@ -317,11 +373,15 @@ def main():
             timeouts(cx, quick)
         total += cx.n
         yv.drop_worker(variant)
+    cx = Ctx(ck, "asan")
+    iterator_stack(cx, quick)
+    total += cx.n
+    yv.drop_worker("asan")
     ck.cov["evaluations"] = total
     ck.cov["distinct_nontrivial"] = total
     ck.sample(dict(limit="strings-per-rule", case="L=2 strings=3 -> ERROR_TOO_MANY_STRINGS, then canary compile+scan"))
     ck.sample(dict(limit="timeout", case="nested loops, deadline passes at poll k for every k in 1..cap -> rc 26 at poll k, scanner reusable"))
-    ck.cov["rule"] = ("a case = one limit driven at one size (L-1, L, L+1, 2L, 10L for each configured L; every depth up to S+5 for each stack size S; every deadline poll k for "
+    ck.cov["rule"] = ("a case = one limit driven at one size (L-1, L, L+1, 2L, 10L for each configured L; every depth up to S+5 for each stack size S; every loop-iterator kind alone and nested at every stack size 1..N under ASan; every deadline poll k for "
                       "each timeout shape), followed by the usability checks; every case is distinct; boundaries are required to be sharp and monotonic")
     ck.assumptions += ["the build with scaled constants is the same source with smaller #ifndef-guarded limits", "stack demand of an expression shape is not predicted: a sharp ok/overflow boundary is required instead",
                        "timeouts use the harness-owned clock (1 microsecond per poll, jump of 5 s at poll k)"]
